@@ -67,6 +67,7 @@ var c20Frozen = time.Date(2020, 5, 17, 10, 0, 0, 0, time.UTC)
 // installC20Env puts the process into simulation mode.
 func installC20Env() {
 	hooks.SetYield(sched.Point)
+	hooks.SetLock(sched.Lock)
 	astisub.Now = func() time.Time {
 		sched.Point(-4)
 		return c20Frozen
@@ -226,7 +227,7 @@ func runScenario(sc C20Scenario, siteFunc map[int]string) ScenarioResult {
 			}
 			ch = &genChooser{r: root.Derive("phase", pi), policy: sc.Policy, mean: mean}
 		}
-		s := &sched.Sched{Tasks: tasks, Chooser: ch, MaxSteps: 2_000_000, Watchdog: 30 * time.Second}
+		s := &sched.Sched{Tasks: tasks, Chooser: ch, MaxSteps: 2_000_000, Watchdog: 10 * time.Second}
 		if siteFunc != nil && len(phase) > 1 {
 			pr.Overlaps = map[string]int{}
 			s.OnPark = func(s *sched.Sched, t *sched.Task, site int) {
@@ -342,8 +343,12 @@ func c20Child(cfg Config, kind string, raw []byte) int {
 		sf := loadSiteFuncs(cfg.Sites)
 		for i, sc := range req.Scenarios {
 			fmt.Fprintf(os.Stderr, markBegin, i)
-			resp.Results = append(resp.Results, runScenario(sc, sf))
+			r := runScenario(sc, sf)
+			resp.Results = append(resp.Results, r)
 			fmt.Fprintf(os.Stderr, markEnd, i)
+			if n := len(r.Phases); n > 0 && strings.Contains(r.Phases[n-1].Err, "watchdog") {
+				break // abandoned goroutines may still run in this process: nothing after this is meaningful
+			}
 		}
 	}
 	os.Stdout.Write(mustJSON(resp))
@@ -881,6 +886,14 @@ func RunC20(cfg Config) (*ShardResult, error) {
 				}
 				res.Violations = append(res.Violations, cvs...)
 				if len(res.Violations) > 20 {
+					return res, nil
+				}
+			}
+			if len(results) < len(batch) { // the child stopped after a watchdog: the rest of the batch was not run
+				res.Inconclusive += int64(len(batch) - len(results))
+				res.Evaluations += int64(len(batch) - len(results))
+				if res.Inconclusive > 30 {
+					res.Notes = append(res.Notes, "too many inconclusive scenarios, worker stopped early")
 					return res, nil
 				}
 			}
